@@ -16,7 +16,8 @@ RULE = ('op sequences (<= 40 ops quick, <= 200 thorough) on one writable RollLog
         '(C13_reader_stream): per segment between seeks/restarts of the read-only instance, what it returns is a subsequence of what was '
         'written, without repetition, and skips only records whose file was unlinked when the reader passed them')
 ASSUMPTIONS = ['one writer per directory (RollLog docstring); other processes only delete files',
-               'write(flush=True) (the default): other file handles see whole records only; calls are atomic (every method holds self.lock)',
+               'write(flush=True) (the default): other file handles see whole records only; calls are atomic (every method holds self.lock); '
+               'write(flush=False): checked on the real class only (noflush_campaign: the bytes another handle sees are a whole number of records)',
                'a log file name is identified with the integer microsecond value it starts with; one prefix/suffix/time zone per directory',
                'bin mode has no record delimiters: a record is one written chunk, reads return concatenations of whole chunks, seeks only go to told offsets',
                'the log directory itself is not removed; clock later than every existing file (constructor time-traveller check not modelled)',
@@ -72,11 +73,59 @@ def gen_case(rng, max_ops=40):
     return case
 
 
+def noflush_campaign(ctx, n):
+    """Writer that does NOT flush after every write (flush=False at construction or per call; Python's buffered file object decides when bytes reach the
+    file): whatever another file handle sees after any write is still a whole number of records, in writing order - a record and its delimiter reach
+    the file together, whatever the record size (also records larger than the file object's buffer) - and everything is there after flush() / close().
+    Harness oracle on the REAL class (unflushed buffers are not in the Lean model); key 'torn-record-on-disk'."""
+    import builtins, json, os, tempfile, shutil
+    from openfilter.filter_runtime.rolllog import RollLog
+    res, rng = ctx.result, ctx.rng
+    SIZES = [0, 1, 7, 100, 900, 4000, 8100, 8191, 8192, 8193, 9000, 20000, 70000]
+    if ctx.replay: cases = [ctx.replay['case']] if (ctx.replay.get('case') or {}).get('kind') == 'noflush' else []
+    else:
+        cases = []
+        for i in range(n):
+            mode = rng.choice(['binl', 'txt', 'json'])
+            cases.append({'kind': 'noflush', 'mode': mode, 'file_size': rng.choice([30_000, 100_000, 10**7]), 'ctor': rng.random() < 0.5,
+                          'recs': [[rng.choice(SIZES), rng.random() < 0.15, rng.random() < 0.1] for _ in range(rng.randint(3, 14))]})
+    for c in cases:
+        d = tempfile.mkdtemp(prefix='c13nf', dir='.')
+        try:
+            w = RollLog(d, c['mode'], file_size=c['file_size'], total_size=10**9, **({'flush': False} if c['ctor'] else {}))
+            want, ts, bad = b'', 1000.0, None
+            for k, (size, many, fl) in enumerate(c['recs']):
+                body = ('%d:' % k + 'x' * size)
+                if c['mode'] == 'json': data, raw = {'k': body}, json.dumps({'k': body}, separators=(',', ':')).encode() + b'\n'
+                elif many: data, raw = ([body, 'b'] if c['mode'] == 'txt' else [body.encode(), b'b']), body.encode() + b'\nb\n'
+                else: data, raw = (body if c['mode'] == 'txt' else body.encode()), body.encode() + b'\n'
+                ts += 1.0
+                w.write(data, ts, **({} if c['ctor'] and not fl else {'flush': bool(fl)}))
+                want += raw
+                disk = b''
+                for fn in sorted(os.listdir(d), key=lambda f: rc.us_of_name(f) or 0):
+                    with builtins.open(os.path.join(d, fn), 'rb') as f: disk += f.read()
+                if not (want.startswith(disk) and (disk == b'' or disk.endswith(b'\n')) and (not fl or disk == want)):
+                    bad = 'after write %d (%d bytes, flush=%s): the files hold %d bytes ending %r - not a whole number of the records written so far' % (k, len(raw), bool(fl), len(disk), disk[-12:]); break
+            if bad is None:
+                w.close()
+                disk = b''
+                for fn in sorted(os.listdir(d), key=lambda f: rc.us_of_name(f) or 0):
+                    with builtins.open(os.path.join(d, fn), 'rb') as f: disk += f.read()
+                if disk != want: bad = 'after close the files hold %d bytes, written %d' % (len(disk), len(want))
+            if bad: res.violations.append(Violation('torn-record-on-disk', bad, c))
+            res.note(c, any(s > 8192 for s, _, _ in c['recs']))
+        finally:
+            shutil.rmtree(d, ignore_errors=True)
+    res.extra['noflush'] = {'cases': len(cases), 'record_sizes': SIZES}
+
+
 def run(ctx):
     logging.disable(logging.CRITICAL)
     res, rng = ctx.result, ctx.rng
+    noflush_campaign(ctx, 1200 if ctx.thorough else 150)
     if ctx.replay:
-        cases = [ctx.replay['case']] if ctx.replay.get('case') else []
+        cases = [ctx.replay['case']] if ctx.replay.get('case') and ctx.replay['case'].get('kind') != 'noflush' else []
     else:
         n, mo = (12000, 200) if ctx.thorough else (4000, 60) if ctx.escalate else (1500, 40)
         cases = [c['case'] if 'case' in c else c for c in ctx.corpus] + [gen_case(rng, mo) for _ in range(n)]
